@@ -7,6 +7,9 @@ import vlib
 VERIF = vlib.VERIF
 ENGINE = [os.path.join(VERIF, "engine", f) for f in ["arena.c", "run.c"]]
 
+# libc entry points that read or change process-wide state / use static result buffers (harness/wraps.c, C12)
+GLOBSTATE_WRAPS = ["umask", "chdir", "setenv", "unsetenv", "putenv", "srand", "rand", "strtok", "asctime", "ctime", "gmtime", "localtime", "tmpnam", "setlocale"]
+
 def harness_sources():
     d = os.path.join(VERIF, "harness")
     return sorted(os.path.join(d, f) for f in os.listdir(d) if f.endswith(".c"))
@@ -58,7 +61,7 @@ def build_harness(config="plain", extra_ldflags=()):
         if not rt:
             raise RuntimeError("libFuzzer runtime (libclang_rt.fuzzer_no_main) not found")
         libargs = libargs + [rt[0], "-lstdc++"]
-    cmd = [cc] + cflags + objs + libargs + ["-lffi", "-lpthread", "-lm", "-ldl", "-Wl,--wrap=malloc,--wrap=calloc,--wrap=realloc,--wrap=free,--wrap=ignore_handler_s", "-o", out] + list(extra_ldflags)
+    cmd = [cc] + cflags + objs + libargs + ["-lffi", "-lpthread", "-lm", "-ldl", "-Wl,--wrap=malloc,--wrap=calloc,--wrap=realloc,--wrap=free,--wrap=ignore_handler_s", "-Wl," + ",".join("--wrap=" + x for x in GLOBSTATE_WRAPS), "-o", out] + list(extra_ldflags)
     r = subprocess.run(cmd, capture_output=True, text=True)
     if r.returncode != 0:
         raise RuntimeError("harness link failed:\n" + r.stderr)
